@@ -370,9 +370,20 @@ func (in *Interp) evalBuiltin(g *core.Graph, name string, call *ast.CallExpr, st
 			if call.Ellipsis == 0 {
 				switch b := a.vals[0].(type) {
 				case SliceVal:
-					v = SliceVal{Elems: append(append([]Val{}, b.Elems...), a.vals[1:]...)}
+					if len(b.Elems)+len(a.vals)-1 <= 16 {
+						v = SliceVal{Elems: append(append([]Val{}, b.Elems...), a.vals[1:]...)}
+					}
 				case Nil:
-					v = SliceVal{Elems: append([]Val{}, a.vals[1:]...)}
+					// appending unknown values to a nil slice builds an unknown slice (keeps loop states finite)
+					known := true
+					for _, e := range a.vals[1:] {
+						if _, ok := e.(Const); !ok {
+							known = false
+						}
+					}
+					if known {
+						v = SliceVal{Elems: append([]Val{}, a.vals[1:]...)}
+					}
 				}
 			}
 			out = append(out, vs{v, a.st})
@@ -389,7 +400,22 @@ func (in *Interp) evalBuiltin(g *core.Graph, name string, call *ast.CallExpr, st
 		return out
 	default:
 		for _, a := range in.evalList(g, call.Args, st) {
-			out = append(out, vs{Top{}, a.st})
+			s2 := a.st
+			if in.cfg.WatchBuiltin != nil {
+				var paths []string
+				for _, v := range a.vals {
+					if r, ok := v.(Ref); ok {
+						paths = append(paths, r.Path)
+					} else {
+						paths = append(paths, v.String())
+					}
+				}
+				if label := in.cfg.WatchBuiltin(name, paths); label != "" {
+					s2 = s2.clone()
+					s2.Emit(label)
+				}
+			}
+			out = append(out, vs{Top{}, s2})
 		}
 		if len(call.Args) == 0 {
 			out = []vs{{Top{}, st}}
